@@ -192,6 +192,12 @@ def check_format_input_orientation(inp, init_format=False):
         inp = Rotation.from_quat(inpQ)
     else:
         inpQ = inp.as_quat()
+        if not np.all(np.isfinite(inpQ)):
+            raise MagpylibBadUserInput(
+                "Input parameter `orientation` must be a scipy `Rotation` object with finite "
+                "quaternions.\nInstead received a rotation with NaN or infinite components "
+                "(e.g. from a NaN angle or a zero-length rotation axis)."
+            )
     # return
     if init_format:
         if inpQ.size == 0:
